@@ -120,6 +120,10 @@ type bucketData struct {
 	hash         []byte
 	etag         string
 	metadata     map[string]string
+
+	// nullVersion marks an entry created while versioning was not enabled;
+	// later unversioned writes replace it instead of archiving it.
+	nullVersion bool
 }
 
 func (bi *bucketData) toObject(rangeRequest *gofakes3.ObjectRangeRequest, withBody bool) (obj *gofakes3.Object, err error) {
@@ -207,6 +211,7 @@ func (b *bucket) objectVersion(objectName string, versionID gofakes3.VersionID) 
 func (b *bucket) put(name string, item *bucketData) {
 	// Always generate a version for convenience; we can just mask it on return.
 	item.versionID = b.versionGen()
+	item.nullVersion = b.versioning != gofakes3.VersioningEnabled
 
 	object := b.object(name)
 	if object == nil {
@@ -214,18 +219,37 @@ func (b *bucket) put(name string, item *bucketData) {
 		b.objects.Set(name, object)
 	}
 
-	if b.versioning == gofakes3.VersioningEnabled {
-		if object.data != nil {
-			if object.versions == nil {
-				object.versions = skiplist.NewCustomMap(func(l, r interface{}) bool {
-					return l.(gofakes3.VersionID) < r.(gofakes3.VersionID)
-				})
-			}
-			object.versions.Set(object.data.versionID, object.data)
-		}
+	// The entry being replaced stays in the history if versioning is enabled,
+	// or if it was created while versioning was enabled: writes made while
+	// versioning is suspended only ever replace the null version.
+	if object.data != nil && (b.versioning == gofakes3.VersioningEnabled || !object.data.nullVersion) {
+		object.archive(object.data)
 	}
 
 	object.data = item
+}
+
+// archive moves a version into the object's history.
+func (b *bucketObject) archive(item *bucketData) {
+	if b.versions == nil {
+		b.versions = skiplist.NewCustomMap(func(l, r interface{}) bool {
+			return l.(gofakes3.VersionID) < r.(gofakes3.VersionID)
+		})
+	}
+	b.versions.Set(item.versionID, item)
+}
+
+// promote makes the newest archived version, if any, the current one.
+func (b *bucketObject) promote() {
+	if b.versions == nil || b.versions.Len() == 0 {
+		return
+	}
+	var newest *bucketData
+	for it := b.versions.Iterator(); it.Next(); {
+		newest = it.Value().(*bucketData)
+	}
+	b.versions.Delete(newest.versionID)
+	b.data = newest
 }
 
 func (b *bucket) rm(name string, at time.Time) (result gofakes3.ObjectDeleteResult, rerr error) {
@@ -242,9 +266,18 @@ func (b *bucket) rm(name string, at time.Time) (result gofakes3.ObjectDeleteResu
 		result.VersionID = item.versionID
 
 	} else {
+		if object.data != nil && !object.data.nullVersion {
+			// Created while versioning was enabled: it stays in the history.
+			object.archive(object.data)
+		}
 		object.data = nil
 		if object.versions == nil || object.versions.Len() == 0 {
 			b.objects.Delete(name)
+		} else {
+			// Older versions remain, so the key must read as deleted: a delete
+			// marker takes the place of the null version.
+			object.data = &bucketData{lastModified: at, name: name, deleteMarker: true, nullVersion: true, versionID: b.versionGen()}
+			result.IsDeleteMarker = true
 		}
 	}
 
@@ -260,6 +293,8 @@ func (b *bucket) rmVersion(name string, versionID gofakes3.VersionID, at time.Ti
 		result.VersionID = versionID
 		result.IsDeleteMarker = object.data.deleteMarker
 		object.data = nil
+		// The newest remaining version becomes the current one again.
+		object.promote()
 
 	} else if object.versions != nil {
 		versionIface, ok := object.versions.Delete(versionID)
